@@ -1,6 +1,22 @@
 """C14 -- untrusted path segments cannot escape the trusted directory (safe_join under normpath axioms)."""
 
 
+def _replay_secure_filename(reg, c, inputs):
+    """the text produced by the NFKD / ascii-ignore / re.sub steps is abstract in the model: replay on the model's
+    name and on a corpus of names around the cases the clauses talk about"""
+    from pyvc import runtime
+    fn = runtime.resolve_real("werkzeug/utils.py:secure_filename")
+    nc = runtime.NativeContract(reg, c)
+    corpus = [inputs.get("filename", ""), "", "a", "(.a", "a.(", "(_a", "a_(", "._x", "x_.", " .a", "a. ", "../../etc/passwd", "\u00e9.",
+              ".\u00e9", "a b", "(_a_)", ".(", ").", "_(.)_", "..", "__", "\u2026a", "a\u2026", "/.a", "a./", "\\_a", "con", "NUL.txt",
+              "(.)(_)a(.)(_)", "\x00.a"]
+    for v in corpus:
+        fails = nc.check_call(fn, [v], {}, {"filename": v})
+        if fails:
+            return [f"(file name {v!r}) " + f for f in fails]
+    return []
+
+
 def register(reg):
     P = "C14"
     import z3
@@ -76,7 +92,7 @@ def register(reg):
     reg.overrides["std:os.name"] = lambda interp: VStr("posix")
     reg.overrides["std:os.path.altsep"] = lambda interp: NONE
     reg.contract(
-        "werkzeug/utils.py:secure_filename", prop=P, replay="pure", params={"filename": "str"}, returns="str",
+        "werkzeug/utils.py:secure_filename", prop=P, replay=_replay_secure_filename, params={"filename": "str"}, returns="str", modifies=[],
         ensures=["re_in(result, '[A-Za-z0-9_.-]*')",
                  "not result.startswith('.') and not result.startswith('_')",
                  "not result.endswith('.') and not result.endswith('_')"],
